@@ -292,13 +292,17 @@ def c12(ctx):
 
 
 # --------------------------------------------------------------------------- C03 / C04 / C14
-def run_crash(ctx, drv, n, ops, seed, torn="", depth=1, shards=8, par=2):
+def run_crash(ctx, drv, n, ops, seed, torn="", depth=1, shards=8, par=2, walname=False, deep_every=6):
     def one(sh):
         out = os.path.join(ctx.scratch, "crash-%s-%d" % (torn or "p", sh))
         args = ["crash", "-seed", seed, "-n", n, "-ops", ops, "-out", out, "-shard", sh, "-shards", shards,
                 "-par", par, "-depth", depth]
         if torn:
             args += ["-torn", torn]
+        if walname:
+            args += ["-walname"]
+        if depth > 1:
+            args += ["-deep-every", deep_every]
         rc, o = ctx.drv(drv, args, timeout=3400)
         summ = None
         sp = os.path.join(out, "summary.json")
@@ -421,7 +425,7 @@ def c03(ctx):
     drv = ctx.build()
     models.run_family(ctx, "crash")
     n, ops = (16, 12) if ctx.quick else (160, 16)
-    outs = run_crash(ctx, drv, n, ops, ctx.seed, depth=1 if ctx.quick else 2)
+    outs = run_crash(ctx, drv, n, ops, ctx.seed, depth=2, deep_every=30 if ctx.quick else 4, walname=True)
     stats = judge_crash(ctx, outs, "c03", "c03")
     crash_cov(ctx, stats, "steered multi-key workloads with tiny thresholds (flush, cascaded compaction, reopen, Close); "
                           "a crash image is the directory copied while the engine is held before a file-system "
